@@ -847,6 +847,12 @@ func (rs *s3ClientStorage) TransitionObjectStorageClass(ctx context.Context, buc
 	if opts != nil && opts.IfMatchETag != nil {
 		input.CopySourceIfMatch = opts.IfMatchETag
 	}
+	// The website redirect location is never copied from the source, so the
+	// self copy has to supply the object's current one again. A failing lookup
+	// is left to the copy request to report.
+	if object, err := rs.HeadObject(ctx, bucketName, key, nil); err == nil {
+		input.WebsiteRedirectLocation = object.Metadata.WebsiteRedirectLocation
+	}
 	if _, err := rs.s3Client.CopyObject(ctx, input); err != nil {
 		return translateS3CopyError(err)
 	}
